@@ -35,8 +35,11 @@ Norm(acc, rest) ==
 (* universe; any other first segment containing a scheme or host ("http://h", "//h") is a       *)
 (* location outside it.                                                                         *)
 LocalAbs == {"<T>", "file://<T>"}
-RemoteAbs == {"http://h.example", "https://h.example", "//h.example", "//h.example<T>", "https://h.example<T>"}
+RemoteAbs == {"http://h.example", "https://h.example", "//h.example", "//h.example<T>", "https://h.example<T>",
+              "https://m.example", "https://m.example<T>"}     \* m.example is a second SERVED host: it has documents (slots) of its own
 IsRemote(f) == f # <<>> /\ f[1] \in RemoteAbs
+ServedAbs == {"https://m.example", "https://m.example<T>"}
+IsUnserved(f) == IsRemote(f) /\ f[1] \notin ServedAbs
 
 (* the file a ref found in file f points into *)
 TargetFile(f, r) == IF r.path = <<>> THEN f
@@ -121,6 +124,7 @@ SiteKey(site) == CASE site = "properties" -> "properties/p" [] site = "items" ->
 EscName(n) == CASE n = "a/b" -> "a~1b" [] n = "a~1b" -> "a~01b" [] n = "a~b" -> "a~0b" [] n = "a~0b" -> "a~00b" [] OTHER -> n
 RefText(r) == JoinSlash(r.path) \o (IF r.frag = <<>> THEN ""
                                    ELSE IF r.frag[1] = "#inl" THEN "#/" \o SiteKey(r.frag[2])
+                                   ELSE IF r.frag[1] = "#coll" THEN "#/components/" \o r.frag[2]        \* a whole collection: an object, but of no kind
                                    ELSE IF r.frag[1] = "pathItems" THEN "#/paths/~1" \o r.frag[2]      \* the path "/<name>" of the target document
                                    ELSE "#/components/" \o r.frag[1] \o "/" \o EscName(r.frag[2]))
 
